@@ -478,6 +478,8 @@ func c09Direct(r *sim.Run, s *hook.Sched, scn string, systematic bool) {
 		i, j := i, j
 		w.spawn(fmt.Sprintf("worker%d", i), func() {
 			reg := w.mkReg(j.secret, j.tt, j.v6, j.covert)
+			// deliveries are parsed one after the other: each carries its own, later, time stamp
+			reg.RegistrationTime = reg.RegistrationTime.Add(time.Duration(i+1) * time.Millisecond)
 			key := c09Key(reg)
 			w.mu.Lock()
 			tracked[key]++
